@@ -518,6 +518,25 @@ def compare(ctx, real, hist, tag):
         if kb is not None and not isinstance(kb, str) and kb != exp and exp is not None:
             ctx.violation('harness-model-disagrees-with-fresh-router', f'{where}: {rule} model {exp} fresh {kb}', wit)
             return False
+        # the other spellings of the same lookup: a mapping with the rule, a mapping with the pattern, the RouteKey helper
+        from ombott.router.radirouter import RouteKey
+        for form, key in (('rule-mapping', {'rule': rule}), ('pattern-mapping', {'pattern': RULES[rule][0]}), ('RouteKey', RouteKey(rule)), ('RouteKey-pattern', RouteKey(pattern=RULES[rule][0]))):
+            out = []
+            for app_ in (ra, fa):
+                try:
+                    x = app_.router[dict(key) if form.endswith('mapping') else key]
+                    out.append(x.pattern if x else None)
+                except Exception as e:  # noqa
+                    out.append('raised:' + type(e).__name__)
+            ctx.count('lookups_by_mapping_key')
+            if out[0] != out[1] and not (isinstance(out[0], str) and out[0].startswith('raised') and 'pattern' not in form):
+                ctx.violation('lookup-by-rule-differs-from-fresh-router', f'{where}: router[{form} of {rule!r}] real {out[0]} fresh {out[1]}', wit)
+                return False
+            # (a lookup by pattern does not look at filters: any registered rule with that pattern answers it)
+            exp_p = RULES[rule][0] if any(RULES[r2][0] == RULES[rule][0] for r2 in real.routes) else None
+            if 'pattern' in form and out[1] != exp_p:
+                ctx.violation('lookup-by-pattern-differs-from-the-registered-routes', f'{where}: router[{form} of {rule!r}] fresh {out[1]} model {exp_p}', wit)
+                return False
 
     def routes_view(app):
         return {p: {m: getattr(rm.handler, 'hid', '?') for m, rm in r.methods.items()} for p, r in app.router.routes.items()}
